@@ -132,3 +132,15 @@ package keeper
 //@   ensures NextL1Sequence == old(NextL1Sequence) && DenomPairs == old(DenomPairs) && Params == old(Params) && BridgeInfo == old(BridgeInfo)   // A-ROUTER: executor/authority-gated state is out of a hook's reach
 //@   ensures hookMaxGas == 0 ==> !success                                                                                        // C07: disabled_hook_fails
 //@   assigns bank.bal, bank.supply, bank.meta, auth.acc, NextL2Sequence, events
+
+//@ func (MsgServer) ExecuteMessages
+//@   opt router_writes_all
+//@   let auth := addrBytes(1, ms.authority)
+//@   ensures err == nil ==> old(Params) != None && req.Sender == val(old(Params)).Admin                                          // C12: admin_only
+//@   ensures err == nil ==> forall j int :: 0 <= j && j < len(messages) ==> len(msgSigners(messages[j])) == 1 && msgSigners(messages[j])[0] == auth   // C12: only_authority_signed_messages
+//@   ensures err != nil ==> bank.bal == old(bank.bal) && bank.supply == old(bank.supply) && Params == old(Params) && Validators == old(Validators)
+//@        && NextL1Sequence == old(NextL1Sequence) && NextL2Sequence == old(NextL2Sequence) && DenomPairs == old(DenomPairs) && BridgeInfo == old(BridgeInfo)
+//@        && ValidatorsByConsAddr == old(ValidatorsByConsAddr) && LastValidatorPowers == old(LastValidatorPowers) && auth.acc == old(auth.acc)   // C12: all_or_nothing
+//@   loop 0 invariant 0 <= $i && $i <= len(messages)
+//@   loop 0 invariant forall j int :: 0 <= j && j < $i ==> len(msgSigners(messages[j])) == 1 && msgSigners(messages[j])[0] == auth
+//@   assigns \everything
